@@ -1471,14 +1471,26 @@ func runC12(f []string) string {
 		}
 		var out []string
 		rebin := "same"
+		// the records are looked at only after the loader has read the whole file and its footer — as the tool does, whose loader
+		// goroutine runs ahead of the consumers by up to a channel's length: a record must not change once it has been handed out
+		var held []*rdb.BinEntry
+		loadErr := false
 		for {
 			e, err := l.NextBinEntry()
 			if err != nil {
-				return fmt.Sprintf("f=%s f2=%s end=err objs=%s", digest12(b1.Bytes()), digest12(b2.Bytes()), strings.Join(out, ";"))
+				loadErr = true
+				break
 			}
 			if e == nil {
 				break
 			}
+			held = append(held, e)
+		}
+		footerErr := false
+		if !loadErr {
+			footerErr = l.Footer() != nil
+		}
+		for _, e := range held {
 			oe, err := e.ObjEntry()
 			if err != nil {
 				out = append(out, fmt.Sprintf("%d/%s/%d/%s", e.DB, hx(e.Key), e.ExpireAt, errClass12(err)))
@@ -1490,8 +1502,11 @@ func runC12(f []string) string {
 				rebin = "diff"
 			}
 		}
+		if loadErr {
+			return fmt.Sprintf("f=%s f2=%s end=err objs=%s", digest12(b1.Bytes()), digest12(b2.Bytes()), strings.Join(out, ";"))
+		}
 		end := "ok"
-		if err := l.Footer(); err != nil {
+		if footerErr {
 			end = "err"
 		}
 		return fmt.Sprintf("f=%s f2=%s end=%s objs=%s rebin=%s", digest12(b1.Bytes()), digest12(b2.Bytes()), end, strings.Join(out, ";"), rebin)
